@@ -93,6 +93,7 @@ class NF:
     def __init__(s, env=None, atoms=None, unknown_ok=True):
         s.env = env or {}          # local name -> ast expr (copy propagation)
         s.atoms = atoms or {}      # source text -> canonical atom name (role binding)
+        s.logs = {}                # atom name of log(X) -> normal form of X   (exp(log X) = X)
     def dotted(s, n):
         src = ast.unparse(n)
         head = src.split(".")[0]
@@ -123,9 +124,26 @@ class NF:
             f = s.dotted(n.func)
             args = [s.nf(a) for a in n.args]
             if f in TRANSPARENT and len(args) == 1 and not n.keywords: return args[0]
+            if f == "numpy.sqrt" and len(args) == 1 and args[0].den.is_const() and args[0].num.monomial():
+                # sqrt(sum(v**2)) == norm(v)
+                (k, c), = args[0].num.t.items()
+                if c == list(args[0].den.t.values())[0] and len(k) == 1 and k[0][1] == 1 and k[0][0].startswith("sum(") and k[0][0].endswith("^2)"):
+                    inner = k[0][0][4:-3]
+                    if inner.startswith("1*") and "+" not in inner and " " not in inner.strip():
+                        return Rat(Poly.atom(f"norm({inner})"))
             if f in FUNC_EQ and len(args) == 1: return args[0].pow(FUNC_EQ[f][1])
-            if f == "numpy.exp" and len(args) == 1:
+            if f in ("numpy.log", "math.log") and len(args) == 1:
+                name = f"numpy.log({args[0]!r})"
+                s.logs[name] = args[0]
+                return Rat(Poly.atom(name))
+            if f in ("numpy.exp", "math.exp") and len(args) == 1:
                 a = args[0]
+                # exp(log X) = X
+                if a.den.is_const() and a.num.monomial():
+                    (k, c), = a.num.t.items()
+                    c = c / list(a.den.t.values())[0]
+                    if c == 1 and len(k) == 1 and k[0][1] == 1 and k[0][0] in s.logs:
+                        return s.logs[k[0][0]]
                 # canonical sign: exp(-x) = exp(x)^-1 ; choose the variant whose repr sorts first
                 pos, neg = repr(a), repr(-a)
                 if neg < pos: return Rat(1) / Rat(Poly.atom(f"exp({neg})"))
